@@ -141,6 +141,7 @@ def tests(tier):
                 out.append(Test(pfx + "." + t.name, t.strategy, t.run, n, cfgs))
     take(c01, "c01", None, SAN, 0.15)
     take(c03, "c03", None, SAN, 0.15)
+    take(c03, "c03b32", {"bash", "prg", "prg_inv"}, ("bash32a",), 0.15)     # states of exactly _keep() octets with the 32-bit bash-f back end
     take(c05, "c05", None, ("msan", "asan"), 0.15)  # (the 32-bit word ASan run of these generators is C05 itself)
     take(c10, "c10", None, SAN, 0.1)
     take(c11, "c11", {"overlap"}, ("msan",), 0.05)
